@@ -438,7 +438,13 @@ pub fn generate(rng: &mut Rng) -> ResProgram {
                 if !before.is_empty() || !after.is_empty() {
                     features.push("entry-with-several-attributes".into());
                 }
-                text.push_str(&format!("{}[numthreads({})]\n{}void {}(uint3 dtid : SV_DispatchThreadID)\n{{\n{}}}\n\n", before, threads, after, entry, b));
+                if cx.rng.chance(1, 5) {
+                    // entry points are found by their name in whatever namespace they are declared
+                    text.push_str(&format!("namespace Stage{}\n{{\n{}[numthreads({})]\n{}void {}(uint3 dtid : SV_DispatchThreadID)\n{{\n{}}}\n}}\n\n", p, before, threads, after, entry, b));
+                    features.push("entry-point-in-namespace".into());
+                } else {
+                    text.push_str(&format!("{}[numthreads({})]\n{}void {}(uint3 dtid : SV_DispatchThreadID)\n{{\n{}}}\n\n", before, threads, after, entry, b));
+                }
                 compute_entries.push(entry.clone());
                 entry
             };
